@@ -68,7 +68,26 @@ Fixpoint insert_abs (x : Z) (l : cfg) : cfg :=
   end.
 Definition sort_abs (l : cfg) : cfg := fold_right insert_abs [] l.
 
-(* the cursor: ENUMERATION_CACHE, a map from the abs-sorted assumption list to the next index *)
+(* Vec::dedup: consecutive repeated elements are removed (the first of a run is kept) *)
+Fixpoint dedup (l : cfg) : cfg :=
+  match l with
+  | [] => []
+  | x :: l' =>
+    match l' with
+    | y :: _ => if x =? y then dedup l' else x :: dedup l'
+    | [] => [x]
+    end
+  end.
+(* the cursor key of an assumption list (repair F19 of finding K12):
+   assumptions.sort_unstable_by_key(|f| f.abs()); assumptions.dedup();
+   For a consistent list (no literal together with its complement) equal literals are adjacent
+   after the sort, whatever the unstable sort does with equal keys, so the key is the SET of
+   literals in feature order.  A list with a literal and its complement never reaches the cursor
+   on a well-formed circuit (its count is 0); there the model's stable insertion sort need not be
+   the order the Rust sort produces, and nothing depends on it. *)
+Definition enum_key (A : cfg) : cfg := dedup (sort_abs A).
+
+(* the cursor: ENUMERATION_CACHE, a map from the key of the assumption list to the next index *)
 Notation cursor := (list (cfg * Z)).
 Fixpoint cfg_eqb (a b : cfg) : bool :=
   match a, b with
@@ -87,7 +106,8 @@ Fixpoint cur_set (cur : cursor) (k : cfg) (v : Z) : cursor :=
   | (k', v') :: cur' => if cfg_eqb k k' then (k, v) :: cur' else (k', v') :: cur_set cur' k v
   end.
 
-(* Ddnnf::enumerate (repaired code: the page is reserved before it is computed) *)
+(* Ddnnf::enumerate (repaired code: F4 the page is reserved before it is computed; F19 the
+   assumptions are sorted AND de-duplicated before they are counted and used as the cursor key) *)
 Definition enumerate (d : ddnnf) (A : cfg) (amount : Z) (cur : cursor) (s : scratch)
   : scratch * cursor * option (list cfg) :=
   if amount =? 0 then (s, cur, Some [])
@@ -95,7 +115,7 @@ Definition enumerate (d : ddnnf) (A : cfg) (amount : Z) (cur : cursor) (s : scra
     match preprocess d A s with
     | None => (s, cur, None)
     | Some s1 =>
-      let A' := sort_abs A in
+      let A' := enum_key A in
       let '(s2, r) := execute_query d A' s1 in
       if 0 <? r then
         let rtv := rt d s2 in
